@@ -285,6 +285,8 @@ func kindsOK(k map[string]bool) (bool, string) {
 func checkC06(c *Ctx, r *Report, tier string) {
 	round5(c, r, "C06")
 	round6(c, r, "C06")
+	round7(c, r, "C06")
+	round8(c, r, "C06")
 	r.Rule("C06.R1", "every iterator is bounded by the group: the options value given to NewIterator has its Prefix stored, before the call, from a constructor that embeds the receiver's group id", 1)
 	r.Rule("C06.R2", "key provenance: every key handed to txn.Get/Set, batch.Set/Delete or iterator.Seek in a method of the log store derives from a group-embedding key constructor or from Item().Key() of a prefix-bounded iterator (the package-level node-id accessors use a constant key: named exception)", 6)
 	r.Rule("C06.R3", "DeleteGroup covers every key family: for each key constructor that reaches a Set, the call tree of DeleteGroup contains a Delete of that family or a prefix sweep whose prefix is a prefix of the family", 3)
